@@ -77,10 +77,10 @@ Print Assumptions C05_history_mdat.
    each traf holds one trun per run of its track (canon_of: write-order number = run index), the data of the run
    with index k lies at byte run_pos k of the mdat payload (placed), and tfdt is the decode time of the first
    sample added to the track. *)
-Theorem C05_offsets : forall tracks ops cs fr,
+Theorem C05_offsets : forall tracks pre mx post exs ops cs fr,
   NoDup tracks -> N.of_nat (length ops) < 4294967296 -> forallb is_full_to ops = true ->
   Forall (fun o => sized_f (op_full o)) ops ->
-  run_ops (create_multi tracks) ops = (cs, Some fr) ->
+  run_ops (with_extras (create_multi tracks) pre mx post exs) ops = (cs, Some fr) ->
   let g := ghost tracks [] ops in
   let rr := runs_of g in
   let m := md_size_touch (fr_mdat fr) in
@@ -92,29 +92,45 @@ Theorem C05_offsets : forall tracks ops cs fr,
     tf_truns t = map canon_of (specs_of (track_of t) g) /\
     Forall (placed (md_data (fr_mdat fr)) rr) (specs_of (track_of t) g) /\
     tf_dt t = tfdt_of (added_fulls tracks (track_of t) ops).
-Proof. exact offsets_multi. Qed.
+Proof. exact offsets_multi_final. Qed.
 Print Assumptions C05_offsets.
 
 (* C05_roundtrip (structure level: box codecs replaced by the wire view of truns, proved for tfhd/trun only as
    far as C05_optimize_resolve goes; mfhd/tfdt/mdat/extra boxes are positions and sizes).  For every multi-track
    fragment (pairwise different ids, including tracks that receive nothing), every history of AddFullSampleToTrack
    (also to unknown ids, which are refused) with Sample.Size = len(Data), optimisation on or off, any sizes of
-   extra boxes before moof / in moof / in trafs / after mdat, any absolute position pos0 and ANY trex: if
+   extra boxes before moof / in moof / in trafs / after mdat (with_extras), any absolute position pos0 and ANY trex: if
    Fragment.Encode succeeds then Fragment.GetFullSamples(trex) on the decoded fragment returns exactly the full
    samples added to trex's track, in order, with their bytes, sizes, durations, flags, composition offsets and
    decode times, provided the added decode times are consistent with the durations and the fragment stays below
    2 GiB (int32 data offsets). *)
-Theorem C05_roundtrip : forall tracks ops cs fr opt fe pos0 tx,
+Theorem C05_roundtrip : forall tracks pre mx post exs ops cs fr opt fe pos0 tx,
   NoDup tracks -> N.of_nat (length ops) < 4294967296 -> forallb is_full_to ops = true ->
   Forall (fun o => sized_f (op_full o)) ops ->
-  run_ops (create_multi tracks) ops = (cs, Some fr) ->
+  run_ops (with_extras (create_multi tracks) pre mx post exs) ops = (cs, Some fr) ->
   encode_frag opt fr = Ok fe ->
   moof_size fe + md_header_size (fr_mdat fe) + lenN (md_data (fr_mdat fr)) < 2147483648 ->
   pos0 + fr_pre fe < 4611686018427387904 ->
   consistent (added_fulls tracks (tx_track tx) ops) ->
   get_full_samples (decoded_view fe pos0 []) (Some tx) = Ok (added_fulls tracks (tx_track tx) ops).
-Proof. exact roundtrip_multi_ops. Qed.
+Proof. exact roundtrip_multi_final. Qed.
 Print Assumptions C05_roundtrip.
+
+(* the same for single-track fragments: CreateFragment(seq,T) + extra boxes, any history of AddFullSample /
+   AddFullSampleToTrack (other ids are refused) that adds at least one sample; a trex of another track gets nil *)
+Theorem C05_roundtrip_single : forall T ops cs fr opt fe pos0 tx pre mx post exs,
+  N.of_nat (length ops) < 4294967296 -> forallb is_full ops = true ->
+  Forall (fun o => sized_f (op_full o)) ops ->
+  run_ops (with_extras (create_fragment T) pre mx post exs) ops = (cs, Some fr) ->
+  encode_frag opt fr = Ok fe ->
+  added1_fulls T ops <> [] ->
+  moof_size fe + md_header_size (fr_mdat fe) + lenN (md_data (fr_mdat fr)) < 2147483648 ->
+  pos0 + fr_pre fe < 4611686018427387904 ->
+  consistent (added1_fulls T ops) ->
+  get_full_samples (decoded_view fe pos0 []) (Some tx) =
+    Ok (if tx_track tx =? T then added1_fulls T ops else []).
+Proof. exact roundtrip_single. Qed.
+Print Assumptions C05_roundtrip_single.
 
 (* single-track fragments: the data offset of the only run (all six operations) *)
 Theorem C05_offsets_partial : forall T ops cs fr,
@@ -178,7 +194,8 @@ Example C05_roundtrip_ex :
   let tx := mkTrex 2 7 9 65536 in
   NoDup [1; 2; 3] /\ forallb is_full_to ops = true /\ Forall (fun o => sized_f (op_full o)) ops /\
   consistent (added_fulls [1; 2; 3] (tx_track tx) ops) /\
-  exists fr fe, run_ops (create_multi [1; 2; 3]) ops = ([COk; COk; COk; CErr; COk; COk], Some fr) /\
+  exists fr fe, run_ops (with_extras (create_multi [1; 2; 3]) 77 9 12 [0; 26]) ops
+                  = ([COk; COk; COk; CErr; COk; COk], Some fr) /\
                 encode_frag true fr = Ok fe /\
                 get_full_samples (decoded_view fe 1000 []) (Some tx)
                   = Ok [mkFull (s 1) 100 [1]; mkFull (s 2) 110 [2;3]; mkFull (s 1) 120 [5]].
